@@ -13,6 +13,7 @@ CONSTANTS
   Starts <- StartsMC
   RegOffer <- RegMC
   EnvGet <- EnvMC
+  DirGet <- DirMC
   Obs <- ObsNone
 CONSTRAINT StoreBound
 INVARIANTS TypeOK OutputBounded NeverReadsPastEnd
